@@ -1062,7 +1062,8 @@ def c11_residuals():
         out.append(struct(oid + '.formula', ok, '(model - data)/numpy.ma.sqrt(model): %s' % s[:120], fn, finding_key='C11/linear_residual/formula'))
         p = ex.run(f, [model, data], dict(mask=z3.Real('cut')))
         s = vrepr(p[0].value) if len(p) == 1 and p[0].outcome == 'return' else repr(p)
-        ok = 'masked_where' in s and 'logical_and(cmp:LtE(model, cut), cmp:LtE(data, cut))' in s.replace('call:lib:numpy.', '').replace('call:attr:', '').replace('(lib:numpy)', '')
+        s_ = s.replace('call:lib:numpy.', '').replace('call:attr:', '').replace('(lib:numpy)', '')
+        ok = 'masked_where' in s and ('logical_and(cmp:LtE(model, cut), cmp:LtE(data, cut))' in s_ or 'masked_where(And(cmp:LtE(model, cut), cmp:LtE(data, cut))' in s_)
         out.append(struct(oid + '.mask', ok, 'masked where model <= mask and data <= mask: %s' % s[:200], fn))
         data, model = _spectra(True, False)
         p = ex.run(f, [model, data])
@@ -1423,7 +1424,7 @@ def c18_projection_inbreeding(n, k):
             for c in itertools.combinations(part, k // 2):
                 want[sum(c)] += 1
             want /= tot
-            return dict(reproduced=bool(abs(r - want).max() > 1e-12), input=dict(partition=part, k=k), got=list(map(float, r)), want=list(map(float, want)))
+            return dict(replayed=True, postcondition_holds_natively=not bool(abs(r - want).max() > 1e-12), input=dict(partition=part, k=k), got=list(map(float, r)), want=list(map(float, want)))
         out = []
         for pi, p in enumerate(rets):
             tag = oid if len(rets) == 1 else '%s.path%d' % (oid, pi)
@@ -1536,5 +1537,862 @@ def c18_projection_matrix(nseq, nsub):
                 out.append(struct('%s.%s.partition-arguments' % (oid, tag), bool(ok), "partitions_and_probabilities(n_sequenced, 'allele_frequency', F, a)", fn))
         if seen != {'F0', 'Fnonzero'}:
             out.append(struct(oid + '.cases', False, 'cases explored: %s' % sorted(seen), fn, undecided=True))
+        return out
+    return go()
+
+
+# ---------------------------------------------------------------- C13: summary statistics of a 1-D spectrum
+def _spectrum_self(n, S_contract=True):
+    """A 1-D spectrum object with symbolic entries f0..fn for the executor: an ndarray VList plus the attributes the statistic
+    methods read.  S(), pi(), Watterson_theta() called *from another method* are answered by their contracts (modular)."""
+    f = reals('f', n + 1)
+    me = VList(list(f), 'ndarray')
+    return me, f
+
+
+def c13_statistics(n):
+    """For a 1-D spectrum f of n chromosomes (entries f_0..f_n, corners masked for S):
+         S = sum_{0<i<n} f_i;   Watterson = S / sum_{k<n} 1/k;   theta_L = sum i f_i/(n-1);
+         pi = sum_i f_i * i(n-i)/C(n,2)   -- a SNP with i derived copies contributes the fraction of the C(n,2) pairs that differ;
+         Tajima_D = (pi - Watterson)/sqrt(e1 S + e2 S (S-1)) with Tajima's (1989) constants.
+    S() must leave the mask as it found it."""
+    base = 'C13/Spectrum_mod.py:Spectrum'
+    out = []
+    import math
+
+    def run_method(meth, contracts):
+        me, f = _spectrum_self(n)
+        log = []
+
+        def gh(ex, obj, name, ctx):
+            if obj is me:
+                if name == 'sample_sizes':
+                    return VList([n], 'ndarray')
+                if name in ('Npop', 'ndim'):
+                    return 1
+                if name in contracts:
+                    return PyFn(lambda: contracts[name](f), 'self.' + name)
+            return NotImplemented
+        ex = Executor(getattr_hook=gh)
+        fr = ex.func('dadi/Spectrum_mod.py', 'Spectrum.' + meth)
+        paths = ex.run(fr, [me], {})
+        return ex, f, paths
+
+    Sx = lambda f: sum(f[1:n], z3.RealVal(0))
+    an = sum(Fraction(1, k) for k in range(1, n))
+    bn = sum(Fraction(1, k * k) for k in range(1, n))
+    PIx = lambda f: sum((f[i] * Fraction(i * (n - i), math.comb(n, 2)) for i in range(n + 1)), z3.RealVal(0))
+    Wx = lambda f: Sx(f) / z3.RealVal(str(an)) if False else Sx(f) * z3.Q(an.denominator, an.numerator)
+
+    def native(meth):
+        def replay(model):
+            import numpy, dadi
+            fv = [float(Fraction(str(model.get('f%d' % i, 0)))) for i in range(n + 1)]
+            fs = dadi.Spectrum(fv)
+            got = float(getattr(fs, meth)())
+            S_ = sum(fv[1:n])
+            pi_ = sum(fv[i] * i * (n - i) / math.comb(n, 2) for i in range(n + 1))
+            w_ = S_ / float(an)
+            if meth == 'pi':
+                want = pi_
+            elif meth == 'Watterson_theta':
+                want = w_
+            elif meth == 'theta_L':
+                want = sum(i * fv[i] for i in range(1, n)) / (n - 1)
+            else:
+                a1, a2 = float(an), float(bn)
+                b1, b2 = (n + 1) / (3 * (n - 1)), 2 * (n * n + n + 3) / (9 * n * (n - 1))
+                c1, c2 = b1 - 1 / a1, b2 - (n + 2) / (a1 * n) + a2 / a1 ** 2
+                want = (pi_ - w_) / numpy.sqrt(c1 / a1 * S_ + c2 / (a1 ** 2 + a2) * S_ * (S_ - 1))
+            bad = not (abs(got - want) <= 1e-9 * max(1.0, abs(want)))
+            return dict(replayed=True, postcondition_holds_natively=not bad, input=dict(fs=fv, method=meth), got=got, want=want)
+        return replay
+
+    def one(meth, contracts, want_fn, what):
+        oid = '%s.%s/n%d' % (base, meth, n)
+        fn = 'dadi/Spectrum_mod.py::Spectrum.' + meth
+
+        @guarded(oid, fn)
+        def go():
+            ex, f, paths = run_method(meth, contracts)
+            rets = [p for p in paths if p.outcome == 'return']
+            if len(rets) != 1 or len(paths) != 1:
+                return [struct(oid, False, 'expected one returning path: %r' % paths[:2], fn, undecided=True)]
+            return want_fn(oid, fn, f, rets[0])
+        return go()
+
+    out += one('Watterson_theta', dict(S=Sx), lambda oid, fn, f, p: [prove_eq(oid, list(p.pc), p.value, Wx(f), fn, replay=native('Watterson_theta'))], '')
+    out += one('theta_L', {}, lambda oid, fn, f, p: [prove_eq(oid, list(p.pc), p.value, sum((i * f[i] for i in range(1, n)), z3.RealVal(0)) / (n - 1), fn, replay=native('theta_L'))], '')
+    out += one('pi', {}, lambda oid, fn, f, p: [prove_eq(oid, list(p.pc), p.value, PIx(f), fn, replay=native('pi'))], '')
+
+    def tajima(oid, fn, f, p):
+        # (pihat - theta)/sqrt(R): compare numerator and radicand separately
+        v = p.value
+        S = Sx(f)
+        a1, a2 = an, bn
+        b1 = Fraction(n + 1, 3 * (n - 1))
+        b2 = Fraction(2 * (n * n + n + 3), 9 * n * (n - 1))
+        c1 = b1 - 1 / a1
+        c2 = b2 - Fraction(n + 2, 1) / (a1 * n) + a2 / a1 ** 2
+        e1, e2 = c1 / a1, c2 / (a1 ** 2 + a2)
+        q = lambda fr_: z3.Q(fr_.numerator, fr_.denominator)
+        rad = q(e1) * S + q(e2) * S * (S - 1)
+        want = (PIx(f) - Wx(f)) / uf('sqrt')(rad)
+        return [prove_eq(oid, list(p.pc) + [rad > 0], v, want, fn, replay=native('Tajima_D'))]
+    out += one('Tajima_D', dict(S=Sx, pi=PIx, Watterson_theta=Wx), tajima, '')
+    return out
+
+
+def c13_S_frame():
+    """Spectrum.S(): masks the two corners, sums, and puts the caller's mask back (no lasting change to self)."""
+    oid = 'C13/Spectrum_mod.py:Spectrum.S/frame'
+    fn = 'dadi/Spectrum_mod.py::Spectrum.S'
+
+    @guarded(oid, fn)
+    def go():
+        me = Tm('self')
+        log = []
+        m0 = Tm('mask0')
+        m0.attrs['copy'] = PyFn(lambda: (log.append('mask.copy'), Tm('mask0.copy'))[1], 'mask.copy')
+        me.attrs['mask'] = m0
+        me.attrs['mask_corners'] = PyFn(lambda: log.append('mask_corners'), 'mask_corners')
+        me.attrs['sum'] = PyFn(lambda: (log.append('sum'), Tm('sum'))[1], 'sum')
+        ex = Executor()
+        fr = ex.func('dadi/Spectrum_mod.py', 'Spectrum.S')
+        paths = ex.run(fr, [me], {})
+        if len(paths) != 1 or paths[0].outcome != 'return':
+            return [struct(oid, False, 'expected one returning path: %r' % paths[:2], fn, undecided=True)]
+        final = me.attrs.get('mask')
+        ok_order = log == ['mask.copy', 'mask_corners', 'sum']
+        ok_restore = isinstance(final, Tm) and final.op == 'mask0.copy'
+        ok_val = isinstance(paths[0].value, Tm) and paths[0].value.op == 'sum'
+        return [struct(oid + '.order', ok_order, 'copy the mask, mask the corners, then sum: %s' % log, fn),
+                struct(oid + '.mask-restored', ok_restore, 'self.mask ends as the saved copy (is %s)' % vrepr(final), fn),
+                struct(oid + '.value', ok_val, 'returns the masked sum', fn)]
+    return go()
+
+
+def c13_from_count_dict(npop):
+    """Spectrum._from_count_dict: the spectrum is  sum over count_dict entries of  count * outer product over populations of
+    _cached_projection(projection_p, called_p, derived_p);  with polarized=True entries not marked polarized contribute nothing,
+    with polarized=False every entry contributes and the total is folded.  (_cached_projection and fold by contract: C08, C09.)"""
+    oid = 'C13/Spectrum_mod.py:Spectrum._from_count_dict/%dD' % npop
+    fn = 'dadi/Spectrum_mod.py::Spectrum._from_count_dict'
+
+    @guarded(oid, fn)
+    def go():
+        out = []
+        proj = [2, 3][:npop]
+        entries = [((5, 4)[:npop], (2, 1)[:npop], True), ((3, 6)[:npop], (3, 2)[:npop], False), ((4, 4)[:npop], (0, 4)[:npop], True)]
+        for polarized in (True, False):
+            cnt = reals('c', len(entries))
+            folded = []
+
+            def pol(fref):
+                if fref.qualname == '_cached_projection':
+                    def h(ex, fr, args, kwargs):
+                        a = [exact(x) for x in args]
+                        return VList([z3.Real('P(%s)[%d]' % (','.join(map(str, a)), j)) for j in range(a[0] + 1)], 'ndarray')
+                    return h
+                return 'inline' if fref.qualname.endswith('_from_count_dict') else 'abstract'
+
+            def ah(ex_, fref, a, kw, ctx):
+                # dadi.Spectrum(data, pop_ids=..., mask_corners=...): the data array itself (constructor trusted to wrap it unchanged)
+                if (isinstance(fref, ClassRef) and fref.node.name == 'Spectrum') or (isinstance(fref, Tm) and 'Spectrum' in fref.op):
+                    return a[0]
+                return NotImplemented
+
+            def gh(ex_, obj, name, ctx):
+                if isinstance(obj, VList) and name == 'fold':
+                    def fold():
+                        folded.append(obj)
+                        return Tm('folded')
+                    return PyFn(fold, 'fold')
+                return NotImplemented
+            ex = Executor(policy=pol, getattr_hook=gh)
+            ex.abstract_hook = ah
+            f = ex.func('dadi/Spectrum_mod.py', 'Spectrum._from_count_dict')
+            cd = VDict(dict((k, c) for k, c in zip(entries, cnt)))
+            paths = ex.run(f, [cd, VList(list(proj)), polarized], dict(pop_ids=None, mask_corners=False))
+            tag = '%s.%s' % (oid, 'polarized' if polarized else 'unpolarized')
+            if len(paths) != 1 or paths[0].outcome != 'return':
+                out.append(struct(tag, False, 'expected one returning path: %r' % paths[:2], fn, undecided=True))
+                continue
+            v = paths[0].value
+            if polarized:
+                arr = v
+            else:
+                ok = isinstance(v, Tm) and v.op == 'folded' and len(folded) == 1
+                out.append(struct(tag + '.folded', bool(ok), 'the unpolarized total is returned through .fold()', fn))
+                if not ok:
+                    continue
+                arr = folded[0]
+
+            def entry(a, idx):
+                for i in idx:
+                    a = ex.iterate(a)[i]
+                return a
+            shape = [p + 1 for p in proj]
+            for idx in itertools.product(*[range(s) for s in shape]):
+                want = z3.RealVal(0)
+                for (called, derived, ispol), c in zip(entries, cnt):
+                    if polarized and not ispol:
+                        continue
+                    t = c
+                    for pp in range(npop):
+                        t = t * z3.Real('P(%d,%d,%d)[%d]' % (proj[pp], called[pp], derived[pp], idx[pp]))
+                    want = want + t
+                try:
+                    got = entry(arr, idx)
+                except Exception as e:
+                    out.append(struct('%s.entry%s' % (tag, '_'.join(map(str, idx))), False, 'result has no entry %r: %s' % (idx, e), fn))
+                    continue
+                out.append(prove_eq('%s.entry%s' % (tag, '_'.join(map(str, idx))), list(paths[0].pc), got, want, fn))
+        return out
+    return go()
+
+
+def c13_count_data_dict():
+    """Misc.count_data_dict, per SNP: skipped unless exactly two segregating alleles; polarized iff an outgroup allele is present,
+    is not '-' and is one of the two alleles; the derived allele is the one that differs from the outgroup (allele 2 when unpolarized);
+    successful calls = allele1 + allele2 calls per population; SNPs with the same (calls, derived, polarized) accumulate in one count."""
+    oid = 'C13/Misc.py:count_data_dict'
+    fn = 'dadi/Misc.py::count_data_dict'
+
+    @guarded(oid, fn)
+    def go():
+        from vf.pyvc import named_bool
+        ex = Executor()
+        f = ex.func('dadi/Misc.py', 'count_data_dict')
+        a1, a2, og = Tm('a1'), Tm('a2'), Tm('og')
+        c1, c2 = {'A': (3, 5), 'B': (2, 7)}, {'A': (1, 0), 'B': (4, 4)}
+        snp1 = VDict({'segregating': (a1, a2), 'calls': VDict(c1), 'outgroup_allele': og})
+        snp2 = VDict({'segregating': ('A', 'C', 'G'), 'calls': VDict(c2), 'outgroup_allele': 'A'})       # triallelic: skipped
+        snp3 = VDict({'segregating': ('A', 'C'), 'calls': VDict(c1)})                                     # no outgroup: unpolarized, derived = allele 2
+        snp4 = VDict({'segregating': ('G', 'T'), 'calls': VDict(c2), 'outgroup_allele': 'T'})             # polarized by allele 2: derived = allele 1
+        dd = VDict({'s1': snp1, 's2': snp2, 's3': snp3, 's4': snp4})
+        E1, E2, D = named_bool('cmp:Eq(a1, og)'), named_bool('cmp:Eq(a2, og)'), named_bool("cmp:Eq('-', og)")
+        pre = [z3.Not(z3.And(E1, E2))]
+        paths = ex.run(f, [dd, VList(['A', 'B'])], {}, base_pc=pre)
+        out = []
+        bad = [p for p in paths if p.outcome != 'return']
+        out.append(struct(oid + '.total', not bad and bool(paths), 'every SNP configuration is classified (no raising path)' if not bad else 'raising path: %r' % bad[:1], fn))
+        succ = (8, 9)
+        d2, d1 = (5, 7), (3, 2)
+        for i, p in enumerate(p_ for p_ in paths if p_.outcome == 'return'):
+            got = dict(p.value.d) if isinstance(p.value, VDict) else None
+            if got is None:
+                out.append(struct('%s.path%d' % (oid, i), False, 'result is not a dict: %s' % vrepr(p.value), fn))
+                continue
+            fixed = {((1, 8), (1, 4), True): 1}      # s4: calls (1,0),(4,4), outgroup = allele 2 so derived = allele-1 calls (s2 skipped)
+            cases = []
+            for pol_, der in ((True, d2), (True, d1), (False, d2)):
+                want = dict(fixed)
+                want[(succ, der, pol_)] = want.get((succ, der, pol_), 0) + 1
+                want[(succ, d2, False)] = want.get((succ, d2, False), 0) + 1      # s3
+                cond = z3.And(z3.Not(D), E1) if (pol_, der) == (True, d2) else z3.And(z3.Not(D), E2) if pol_ else z3.Or(D, z3.Not(z3.Or(E1, E2)))
+                cases.append((cond, want))
+            match = [c for c, w in cases if w == got]
+            if not match:
+                out.append(struct('%s.path%d' % (oid, i), False, 'counts %s are not those of any classification of SNP 1' % vrepr(p.value), fn))
+                continue
+            out.append(prove('%s.path%d' % (oid, i), pre + list(p.pc), z3.Or(match), fn))
+        return out
+    return go()
+
+
+def c13_fragment_data_dict():
+    """Misc.fragment_data_dict(dd, chunk_size) for every chunk_size in the stated range: the chunks partition dd (each key exactly once,
+    value object unchanged), chromosome names keep their '_' and '.', and chunk j of a chromosome holds exactly the positions p with
+    j*chunk_size < p <= (j+1)*chunk_size."""
+    oid = 'C13/Misc.py:fragment_data_dict'
+    fn = 'dadi/Misc.py::fragment_data_dict'
+
+    @guarded(oid, fn)
+    def go():
+        ex = Executor()
+        f = ex.func('dadi/Misc.py', 'fragment_data_dict')
+        keys = ['chr_1_10', 'chr_1_10.b', 'chr_1_35', 'sc.2_7', 'chr_1_20', 'sc.2_31']
+        info = {'chr_1_10': ('chr_1', 10), 'chr_1_10.b': ('chr_1', 10), 'chr_1_35': ('chr_1', 35), 'sc.2_7': ('sc.2', 7), 'chr_1_20': ('chr_1', 20), 'sc.2_31': ('sc.2', 31)}
+        vals = {k: Tm('snp:' + k) for k in keys}
+        dd = VDict(dict(vals))
+        cs = z3.Int('chunk_size')
+        pre = [cs >= 6, cs <= 40]
+        paths = ex.run(f, [dd, cs], {}, base_pc=pre)
+        out = []
+        bad = [p for p in paths if p.outcome != 'return']
+        out.append(struct(oid + '.total', not bad and len(paths) > 1, '%d paths over 6 <= chunk_size <= 40, none raises' % len(paths) if not bad else 'raising path: %r' % bad[:1], fn))
+        cover = z3.Or([z3.And(list(p.pc)) for p in paths if p.outcome == 'return'] or [z3.BoolVal(False)])
+        out.append(prove(oid + '.paths-cover-domain', pre, cover, fn))
+        for i, p in enumerate(p_ for p_ in paths if p_.outcome == 'return'):
+            tag = '%s.path%d' % (oid, i)
+            chunks = [dict(c.d) for c in ex.iterate(p.value)] if isinstance(p.value, VList) and all(isinstance(c, VDict) for c in p.value.items) else None
+            if chunks is None:
+                out.append(struct(tag, False, 'result is not a list of dicts', fn))
+                continue
+            seen = [k for c in chunks for k in c]
+            part_ok = sorted(seen) == sorted(keys) and all(c[k] is vals[k] for c in chunks for k in c)
+            out.append(struct(tag + '.partition', part_ok, 'each key of dd in exactly one chunk with its own value' if part_ok else 'keys in chunks: %s' % seen, fn))
+            if not part_ok:
+                continue
+            # chunk index within its chromosome
+            chr_of = []
+            for c in chunks:
+                cn = {info[k][0] for k in c}
+                chr_of.append(cn.pop() if len(cn) == 1 else (None if not cn else 'MIXED'))
+            if 'MIXED' in chr_of:
+                out.append(struct(tag + '.one-chromosome-per-chunk', False, 'a chunk mixes chromosomes', fn))
+                continue
+            for t in range(len(chunks) - 1, -1, -1):
+                if chr_of[t] is None:
+                    chr_of[t] = chr_of[t + 1] if t + 1 < len(chunks) else None
+            start = {}
+            for t, c in enumerate(chr_of):
+                start.setdefault(c, t)
+            goals = []
+            for t, c in enumerate(chunks):
+                j = t - start[chr_of[t]]
+                for k in c:
+                    pos = info[k][1]
+                    goals.append(z3.And(j * cs < pos, pos <= (j + 1) * cs))
+            out.append(prove(tag + '.windows', pre + list(p.pc), z3.And(goals), fn))
+        return out
+    return go()
+
+
+def c13_bootstraps_from_chunks():
+    """Misc.bootstraps_from_dd_chunks: one spectrum per fragment (from_data_dict with the caller's pop_ids, projections, mask_corners,
+    polarized), and every bootstrap is the sum of len(fragments) spectra drawn with replacement from exactly that list, re-wrapped with
+    data_folded = not polarized."""
+    oid = 'C13/Misc.py:bootstraps_from_dd_chunks'
+    fn = 'dadi/Misc.py::bootstraps_from_dd_chunks'
+
+    @guarded(oid, fn)
+    def go():
+        out = []
+        for polarized in (True, False):
+            frags = [Tm('frag%d' % i) for i in range(3)]
+            fdd_calls, choice_calls = [], []
+            draws = [[0, 0, 2], [1, 2, 2]]
+
+            def ah(ex_, fref, a, kw, ctx):
+                nm = fref.qualname if isinstance(fref, FuncRef) else vrepr(fref)
+                if nm.endswith('from_data_dict'):
+                    fdd_calls.append((a, kw))
+                    return Tm('S(%s)' % vrepr(a[0]))
+                if 'random' in nm and nm.rstrip(')').endswith('choices') or 'choices' in nm:
+                    pop = a[0]
+                    choice_calls.append((pop, kw))
+                    d = draws[(len(choice_calls) - 1) % len(draws)]
+                    return VList([ex_.iterate(pop)[i] for i in d])
+                return NotImplemented
+            ex = Executor()
+            ex.abstract_hook = ah
+            f = ex.func('dadi/Misc.py', 'bootstraps_from_dd_chunks')
+            pop_ids, projs = Tm('pop_ids'), Tm('projections')
+            mc = Tm('mask_corners')
+            paths = ex.run(f, [VList(list(frags)), 2, pop_ids, projs], dict(mask_corners=mc, polarized=polarized))
+            tag = '%s.%s' % (oid, 'polarized' if polarized else 'unpolarized')
+            if len(paths) != 1 or paths[0].outcome != 'return':
+                out.append(struct(tag, False, 'expected one returning path: %r' % paths[:2], fn, undecided=True))
+                continue
+            ok_fdd = len(fdd_calls) == 3 and all(c[0][0] is frags[i] and c[0][1] is pop_ids and c[0][2] is projs and (c[0][3] is mc if len(c[0]) > 3 else c[1].get('mask_corners') is mc)
+                                                  and ((c[0][4] if len(c[0]) > 4 else c[1].get('polarized')) is polarized) for i, c in enumerate(fdd_calls))
+            out.append(struct(tag + '.fragment-spectra', bool(ok_fdd), 'from_data_dict(fragment_i, pop_ids, projections, mask_corners, polarized) for each fragment in order', fn))
+            ok_choice = len(choice_calls) == 2 and all([vrepr(x) for x in ex.iterate(c[0])] == ['S(frag0)', 'S(frag1)', 'S(frag2)'] and c[1].get('k') == 3 for c in choice_calls)
+            out.append(struct(tag + '.draws', bool(ok_choice), 'Nboot draws of k = len(fragments) from the list of fragment spectra: %s' % [(vrepr(c[0]), {k: vrepr(v) for k, v in c[1].items()}) for c in choice_calls][:1], fn))
+            res = [vrepr(x) for x in ex.iterate(paths[0].value)]
+            want = []
+            for d in draws:
+                ssum = 'op:Add(op:Add(S(frag%d), S(frag%d)), S(frag%d))' % tuple(d)
+                want.append(ssum)
+            ok_sum = len(res) == 2 and all(w in r and 'Spectrum' in r for w, r in zip(want, res))
+            out.append(struct(tag + '.sums', bool(ok_sum), 'bootstrap b = Spectrum(sum of the drawn spectra): %s' % res[:1], fn))
+            fold_s = "('kw', 'data_folded', %s)" % (not polarized)
+            ok_fold = len(res) == 2 and all(fold_s in r for r in res)
+            out.append(struct(tag + '.folded-flag', bool(ok_fold), 'data_folded = not polarized: %s' % res[:1], fn))
+        return out
+    return go()
+
+
+# ---------------------------------------------------------------- C05: direct (trapezoid) sampling paths
+def _trapz_weights(xs):
+    G = len(xs)
+    w = []
+    for j in range(G):
+        t = z3.RealVal(0)
+        if j > 0:
+            t = t + (xs[j] - xs[j - 1]) / 2
+        if j < G - 1:
+            t = t + (xs[j + 1] - xs[j]) / 2
+        w.append(t)
+    return w
+
+
+def _pw(x, e):
+    r = z3.RealVal(1)
+    for _ in range(e):
+        r = r * x
+    return r
+
+
+def c05_trapz():
+    """Numerics.trapz: composite trapezoid rule sum_j (x_{j+1}-x_j) (y_j + y_{j+1})/2 along the last axis, given either the abscissae or
+    their differences; exactly one of the two must be given."""
+    oid = 'C05/Numerics.py:trapz'
+    fn = 'dadi/Numerics.py::trapz'
+
+    @guarded(oid, fn)
+    def go():
+        out = []
+        G = 4
+        xs, ys, ds = reals('x', G), reals('y', G), reals('d', G - 1)
+        for tag, args, kw, dxs in (('abscissae', [VList(list(ys), 'ndarray'), VList(list(xs), 'ndarray')], {}, [xs[j + 1] - xs[j] for j in range(G - 1)]),
+                                   ('differences', [VList(list(ys), 'ndarray')], dict(dx=VList(list(ds), 'ndarray')), ds)):
+            ex = Executor()
+            f = ex.func('dadi/Numerics.py', 'trapz')
+            paths = ex.run(f, args, kw)
+            if len(paths) != 1 or paths[0].outcome != 'return':
+                out.append(struct('%s.%s' % (oid, tag), False, 'expected one returning path: %r' % paths[:2], fn, undecided=True))
+                continue
+            want = sum((dxs[j] * (ys[j] + ys[j + 1]) / 2 for j in range(G - 1)), z3.RealVal(0))
+            out.append(prove_eq('%s.%s' % (oid, tag), list(paths[0].pc), paths[0].value, want, fn))
+        # 2-D integrand, last axis
+        y2 = [reals('y%d_' % i, G) for i in range(2)]
+        ex = Executor()
+        f = ex.func('dadi/Numerics.py', 'trapz')
+        paths = ex.run(f, [VList([VList(list(r), 'ndarray') for r in y2], 'ndarray')], dict(dx=VList(list(ds), 'ndarray')))
+        if len(paths) != 1 or paths[0].outcome != 'return' or not isinstance(paths[0].value, VList) or len(paths[0].value.items) != 2:
+            out.append(struct(oid + '.rows', False, 'expected one returning path with one value per row: %r' % paths[:2], fn, undecided=True))
+        else:
+            for i in range(2):
+                want = sum((ds[j] * (y2[i][j] + y2[i][j + 1]) / 2 for j in range(G - 1)), z3.RealVal(0))
+                out.append(prove_eq('%s.rows.row%d' % (oid, i), list(paths[0].pc), paths[0].value.items[i], want, fn))
+        for tag, args, kw in (('neither', [VList(list(ys), 'ndarray')], {}), ('both', [VList(list(ys), 'ndarray'), VList(list(xs), 'ndarray')], dict(dx=VList(list(ds), 'ndarray')))):
+            ex = Executor()
+            f = ex.func('dadi/Numerics.py', 'trapz')
+            paths = ex.run(f, args, kw)
+            ok = len(paths) == 1 and paths[0].outcome == 'raise'
+            out.append(struct('%s.refuses-%s' % (oid, tag), ok, 'raises when %s of xx, dx are given' % tag, fn))
+        return out
+    return go()
+
+
+def c05_direct_1d(n, G, het=None):
+    """Spectrum._from_phi_1D_direct: entry i is the trapezoid rule applied to C(n,i) x^i (1-x)^(n-i) phi(x) (times x(1-x) when
+    heterozygote-ascertained); hence linear in phi, and -- without ascertainment -- the entries sum to the trapezoid mass of phi."""
+    oid = 'C05/Spectrum_mod.py:Spectrum._from_phi_1D_direct/n%d_G%d%s' % (n, G, '_het' if het else '')
+    fn = 'dadi/Spectrum_mod.py::Spectrum._from_phi_1D_direct'
+
+    @guarded(oid, fn)
+    def go():
+        import math
+        xs, ph = reals('x', G), reals('phi', G)
+
+        def ah(ex_, fref, a, kw, ctx):
+            if (isinstance(fref, ClassRef) and fref.node.name == 'Spectrum') or (isinstance(fref, Tm) and 'Spectrum' in fref.op):
+                return a[0]
+            return NotImplemented
+        ex = Executor(policy=lambda fr: 'inline' if fr.qualname in ('Spectrum._from_phi_1D_direct', 'trapz') else 'abstract')
+        ex.abstract_hook = ah
+        f = ex.func('dadi/Spectrum_mod.py', 'Spectrum._from_phi_1D_direct')
+        paths = ex.run(f, [n, VList(list(xs), 'ndarray'), VList(list(ph), 'ndarray')], dict(mask_corners=False, het_ascertained=het))
+        if len(paths) != 1 or paths[0].outcome != 'return':
+            return [struct(oid, False, 'expected one returning path: %r' % paths[:2], fn, undecided=True)]
+        data = ex.iterate(paths[0].value)
+        out = [struct(oid + '.length', len(data) == n + 1, 'n+1 entries', fn)]
+        w = _trapz_weights(xs)
+        for i in range(min(n + 1, len(data))):
+            want = z3.RealVal(0)
+            for j in range(G):
+                b = math.comb(n, i) * _pw(xs[j], i) * _pw(1 - xs[j], n - i)
+                if het:
+                    b = b * xs[j] * (1 - xs[j])
+                want = want + w[j] * b * ph[j]
+            out.append(prove_eq('%s.entry%d' % (oid, i), list(paths[0].pc), data[i], want, fn))
+        if not het and len(data) == n + 1:
+            tot = sum((to_real(exact(d)) for d in data), z3.RealVal(0))
+            mass = sum((w[j] * ph[j] for j in range(G)), z3.RealVal(0))
+            out.append(prove_eq(oid + '.total-is-trapezoid-mass', list(paths[0].pc), tot, mass, fn))
+        return out
+    return go()
+
+
+def c05_direct_2d(nx, ny, G):
+    """Spectrum._from_phi_2D_direct: entry (i,j) is the tensor trapezoid rule applied to Bx_i(x) By_j(y) phi(x,y); the entries sum to the
+    2-D trapezoid mass of phi."""
+    oid = 'C05/Spectrum_mod.py:Spectrum._from_phi_2D_direct/nx%d_ny%d_G%d' % (nx, ny, G)
+    fn = 'dadi/Spectrum_mod.py::Spectrum._from_phi_2D_direct'
+
+    @guarded(oid, fn)
+    def go():
+        import math
+        xs, ys = reals('x', G), reals('y', G + 1)
+        ph = [reals('phi%d_' % a, G + 1) for a in range(G)]
+
+        def ah(ex_, fref, a, kw, ctx):
+            if (isinstance(fref, ClassRef) and fref.node.name == 'Spectrum') or (isinstance(fref, Tm) and 'Spectrum' in fref.op):
+                return a[0]
+            return NotImplemented
+        ex = Executor(policy=lambda fr: 'inline' if fr.qualname in ('Spectrum._from_phi_2D_direct', 'trapz') else 'abstract')
+        ex.abstract_hook = ah
+        f = ex.func('dadi/Spectrum_mod.py', 'Spectrum._from_phi_2D_direct')
+        phi = VList([VList(list(r), 'ndarray') for r in ph], 'ndarray')
+        paths = ex.run(f, [nx, ny, VList(list(xs), 'ndarray'), VList(list(ys), 'ndarray'), phi], dict(mask_corners=False))
+        if len(paths) != 1 or paths[0].outcome != 'return':
+            return [struct(oid, False, 'expected one returning path: %r' % paths[:2], fn, undecided=True)]
+        data = [ex.iterate(r) for r in ex.iterate(paths[0].value)]
+        out = [struct(oid + '.shape', len(data) == nx + 1 and all(len(r) == ny + 1 for r in data), '(nx+1) x (ny+1) entries', fn)]
+        if not out[0]['verdict'] == 'proved':
+            return out
+        wx, wy = _trapz_weights(xs), _trapz_weights(ys)
+        tot = z3.RealVal(0)
+        for i in range(nx + 1):
+            for j in range(ny + 1):
+                want = z3.RealVal(0)
+                for a in range(G):
+                    for b in range(G + 1):
+                        want = want + wx[a] * wy[b] * math.comb(nx, i) * _pw(xs[a], i) * _pw(1 - xs[a], nx - i) * math.comb(ny, j) * _pw(ys[b], j) * _pw(1 - ys[b], ny - j) * ph[a][b]
+                out.append(prove_eq('%s.entry%d_%d' % (oid, i, j), list(paths[0].pc), data[i][j], want, fn))
+                tot = tot + to_real(exact(data[i][j]))
+        mass = sum((wx[a] * wy[b] * ph[a][b] for a in range(G) for b in range(G + 1)), z3.RealVal(0))
+        out.append(prove_eq(oid + '.total-is-trapezoid-mass', list(paths[0].pc), tot, mass, fn))
+        return out
+    return go()
+
+
+def c05_from_phi_dispatch(P):
+    """Spectrum.from_phi for P populations: which sampler runs and with which arguments --
+       semi-analytic (1D_analytic / PD_linalg) unless het_ascertained, admix_props or force_direct is given; admix_props -> PD_admix_props;
+       otherwise PD_direct with het_ascertained; arguments (ns..., xxs..., phi, mask_corners[, het | admix_props]) in population order;
+       the result gets the caller's pop_ids and extrap_x = xxs[0][1]; het_ascertained together with admix_props is refused."""
+    oid = 'C05/Spectrum_mod.py:Spectrum.from_phi/dispatch.%dD' % P
+    fn = 'dadi/Spectrum_mod.py::Spectrum.from_phi'
+
+    @guarded(oid, fn)
+    def go():
+        out = []
+        for het in (None, 'xx'):
+            for admix in (False, True):
+                for force in (False, True):
+                    if P == 1 and admix:
+                        continue
+                    tag = '%s.het_%s.admix_%s.force_%s' % (oid, het, admix, force)
+                    phi = Tm('phi')
+                    phi.attrs['ndim'] = P
+                    ns = VList([Tm('n%d' % i) for i in range(P)])
+                    grids = [VList([Tm('x%d_%d' % (i, j)) for j in range(3)], 'ndarray') for i in range(P)]
+                    # same second grid point everywhere (the warning branch is not part of this contract)
+                    for g in grids[1:]:
+                        g.items[1] = grids[0].items[1]
+                    xxs = VList(list(grids))
+                    mc, pids = Tm('mask_corners'), Tm('pop_ids')
+                    ap = VList([VList([1 if i == j else 0 for j in range(P)]) for i in range(P)]) if admix else None
+                    calls = []
+
+                    def ah(ex_, fref, a, kw, ctx):
+                        if isinstance(fref, FuncRef) and fref.qualname.startswith('Spectrum._from_phi_'):
+                            calls.append((fref.qualname, list(a), dict(kw)))
+                            return Tm('fs')
+                        nm = vrepr(fref)
+                        if 'allclose' in nm:
+                            return True
+                        return NotImplemented
+                    ex = Executor()
+                    ex.abstract_hook = ah
+                    f = ex.func('dadi/Spectrum_mod.py', 'Spectrum.from_phi')
+                    paths = ex.run(f, [phi, ns, xxs], dict(mask_corners=mc, pop_ids=pids, admix_props=ap, het_ascertained=het, force_direct=force))
+                    if het and admix:
+                        ok = len(paths) == 1 and paths[0].outcome == 'raise' and not calls
+                        out.append(struct(tag, ok, 'het_ascertained with admix_props is refused before any sampling', fn))
+                        continue
+                    if len(paths) != 1 or paths[0].outcome != 'return' or len(calls) != 1:
+                        out.append(struct(tag, False, 'expected one returning path with one sampler call: %r calls=%s' % (paths[:2], [c[0] for c in calls]), fn, undecided=True))
+                        continue
+                    name, a, kw = calls[0]
+                    if admix:
+                        want_name, tail = '%dD_admix_props' % P, [mc, ap]
+                    elif het or force:
+                        want_name, tail = '%dD_direct' % P, [mc, het]
+                    else:
+                        want_name, tail = ('1D_analytic' if P == 1 else '%dD_linalg' % P), [mc]
+                    want_args = list(ns.items) + list(grids) + [phi] + tail
+                    ok_name = name == 'Spectrum._from_phi_' + want_name
+                    ok_args = not kw and len(a) == len(want_args) and all(x is y or (x is None and y is None) or (isinstance(y, str) and x == y) for x, y in zip(a, want_args))
+                    out.append(struct(tag + '.sampler', ok_name, 'sampler is _from_phi_%s (got %s)' % (want_name, name), fn))
+                    out.append(struct(tag + '.arguments', bool(ok_args), '(ns..., xxs..., phi, mask_corners%s) in population order: %s' % (', extra' if len(tail) > 1 else '', [vrepr(x) for x in a]), fn))
+                    v = paths[0].value
+                    ok_meta = isinstance(v, Tm) and v.op == 'fs' and v.attrs.get('pop_ids') is pids and v.attrs.get('extrap_x') is grids[0].items[1]
+                    out.append(struct(tag + '.labels-and-extrap_x', bool(ok_meta), 'result carries pop_ids and extrap_x = xxs[0][1]', fn))
+        return out
+    return go()
+
+
+# ---------------------------------------------------------------- C09: fold / unfold on small shapes, every entry symbolic
+def _nd_build(shape, fn_):
+    def mk(prefix, dims):
+        if not dims:
+            return fn_(tuple(prefix))
+        return VList([mk(prefix + [i], dims[1:]) for i in range(dims[0])], 'ndarray')
+    return mk([], list(shape))
+
+
+def _nd_get(a, idx):
+    for i in idx:
+        a = a.items[i]
+    return a
+
+
+def _run_spectrum_method(meth, data, mask, ns, folded):
+    """Run Spectrum.<meth> on a spectrum given by nested VLists `data` (reals) and `mask` (Bools).  Returns (ex, paths, made) where
+    `made` lists the Spectrum(...) constructions as (data, kwargs).  _total_per_entry is answered by its contract (sum of the indices)."""
+    shape = tuple(n + 1 for n in ns)
+    pop_ids, extrap = Tm('pop_ids'), Tm('extrap_x')
+    made = []
+
+    def gh(ex_, obj, name, ctx):
+        if obj is data:
+            if name == 'folded':
+                return folded
+            if name == 'sample_sizes':
+                return VList(list(ns), 'ndarray')
+            if name == 'mask':
+                return mask
+            if name == 'pop_ids':
+                return pop_ids
+            if name == 'extrap_x':
+                return extrap
+            if name == 'Npop':
+                return len(ns)
+            if name == '_total_per_entry':
+                return PyFn(lambda: _nd_build(shape, lambda idx: sum(idx)), 'self._total_per_entry')
+        return NotImplemented
+
+    def ah(ex_, fref, a, kw, ctx):
+        if (isinstance(fref, ClassRef) and fref.node.name == 'Spectrum') or (isinstance(fref, Tm) and 'Spectrum' in fref.op):
+            t = Tm('made%d' % len(made))
+            made.append((a[0], dict(kw), t))
+            return t
+        return NotImplemented
+    ex = Executor(policy=lambda fr: 'inline' if fr.qualname in ('Spectrum.' + meth, 'reverse_array') else 'abstract', getattr_hook=gh)
+    ex.abstract_hook = ah
+    f = ex.func('dadi/Spectrum_mod.py', 'Spectrum.' + meth)
+    paths = ex.run(f, [data], {})
+    return ex, paths, made, (pop_ids, extrap)
+
+
+def c09_fold(ns):
+    """Spectrum.fold on a spectrum of sample sizes ns (every entry and every mask bit symbolic).  With t = sum(idx), T = sum(ns), idx' = ns - idx:
+         t >  T//2 : entry 0 and masked;   t <  T/2 : f[idx] + f[idx'];   t == T/2 : (f[idx] + f[idx'])/2;
+         mask = m[idx] or m[idx'] or (t > T//2);   hence total conserved and fold(mirror(x)) = fold(x);
+       unfold gives (d[idx] + d[idx'])/2 and fold(unfold(fold(x))) = fold(x) with the same mask; an already folded spectrum is refused."""
+    ns = tuple(ns)
+    oid = 'C09/Spectrum_mod.py:Spectrum.fold/ns' + '_'.join(map(str, ns))
+    fn = 'dadi/Spectrum_mod.py::Spectrum.fold'
+
+    @guarded(oid, fn)
+    def go():
+        shape = tuple(n + 1 for n in ns)
+        T = sum(ns)
+        name = lambda p, idx: '%s%s' % (p, '_'.join(map(str, idx)))
+        f = {idx: z3.Real(name('f', idx)) for idx in itertools.product(*[range(s) for s in shape])}
+        m = {idx: z3.Bool(name('m', idx)) for idx in f}
+        mirror = lambda idx: tuple(n - i for n, i in zip(ns, idx))
+
+        def spec(fd, md):
+            d, k = {}, {}
+            for idx in fd:
+                t = sum(idx)
+                out_ = t > T // 2
+                if out_:
+                    d[idx] = z3.RealVal(0)
+                elif 2 * t == T:
+                    d[idx] = (fd[idx] + fd[mirror(idx)]) / 2
+                else:
+                    d[idx] = fd[idx] + fd[mirror(idx)]
+                k[idx] = z3.Or(md[idx], md[mirror(idx)], z3.BoolVal(out_))
+            return d, k
+
+        def fold_once(fd, md, tag, out):
+            data = _nd_build(shape, lambda idx: fd[idx])
+            mask = _nd_build(shape, lambda idx: md[idx])
+            ex, paths, made, (pids, ext) = _run_spectrum_method('fold', data, mask, ns, False)
+            if len(paths) != 1 or paths[0].outcome != 'return' or len(made) != 1:
+                out.append(struct(tag, False, 'expected one returning path constructing one Spectrum: %r' % paths[:2], fn, undecided=True))
+                return None
+            arr, kw, t = made[0]
+            ok_meta = kw.get('data_folded') is True and kw.get('pop_ids') is pids and paths[0].value is t and t.attrs.get('extrap_x') is ext
+            out.append(struct(tag + '.flags', bool(ok_meta), 'result is marked folded and keeps pop_ids and extrap_x', fn))
+            return arr, kw.get('mask'), list(paths[0].pc)
+
+        out = []
+        r = fold_once(f, m, oid, out)
+        if r is None:
+            return out
+        arr, mk, pc = r
+        sd, sk = spec(f, m)
+        for idx in f:
+            out.append(prove_eq('%s.entry%s' % (oid, '_'.join(map(str, idx))), pc, _nd_get(arr, idx), sd[idx], fn))
+            got = _nd_get(mk, idx)
+            got = z3.BoolVal(got) if isinstance(got, bool) else got
+            out.append(prove('%s.mask%s' % (oid, '_'.join(map(str, idx))), pc, got == sk[idx], fn))
+        tot = sum((to_real(exact(_nd_get(arr, idx))) for idx in f), z3.RealVal(0))
+        out.append(prove_eq(oid + '.total-conserved', pc, tot, sum(f.values(), z3.RealVal(0)), fn))
+        # mirrored input
+        fm = {idx: f[mirror(idx)] for idx in f}
+        mm = {idx: m[mirror(idx)] for idx in f}
+        r2 = fold_once(fm, mm, oid + '.mirrored', out)
+        if r2 is not None:
+            arr2, mk2, pc2 = r2
+            same = z3.And([to_real(exact(_nd_get(arr2, idx))) == to_real(exact(_nd_get(arr, idx))) for idx in f])
+            out.append(prove(oid + '.mirrored.same-data', pc + pc2, same, fn))
+            b = lambda x: z3.BoolVal(x) if isinstance(x, bool) else x
+            out.append(prove(oid + '.mirrored.same-mask', pc + pc2, z3.And([b(_nd_get(mk2, idx)) == b(_nd_get(mk, idx)) for idx in f]), fn))
+        # refuses folded input
+        data = _nd_build(shape, lambda idx: f[idx])
+        ex, paths, made, _ = _run_spectrum_method('fold', data, _nd_build(shape, lambda idx: m[idx]), ns, True)
+        out.append(struct(oid + '.refuses-folded', len(paths) == 1 and paths[0].outcome == 'raise' and not made, 'fold() of a folded spectrum raises', fn))
+        # unfold of the folded result, then fold again
+        b = lambda x: z3.BoolVal(x) if isinstance(x, bool) else x
+        d1 = {idx: to_real(exact(_nd_get(arr, idx))) for idx in f}
+        k1 = {idx: b(_nd_get(mk, idx)) for idx in f}
+        data1 = _nd_build(shape, lambda idx: d1[idx])
+        mask1 = _nd_build(shape, lambda idx: k1[idx])
+        fnu = 'dadi/Spectrum_mod.py::Spectrum.unfold'
+        ex, paths, made, (pids, ext) = _run_spectrum_method('unfold', data1, mask1, ns, True)
+        if len(paths) != 1 or paths[0].outcome != 'return' or len(made) != 1:
+            out.append(struct(oid + '.unfold', False, 'expected one returning path constructing one Spectrum: %r' % paths[:2], fnu, undecided=True))
+            return out
+        arr_u, kw_u, t_u = made[0]
+        out.append(struct(oid + '.unfold.flags', kw_u.get('data_folded') is False and kw_u.get('pop_ids') is pids, 'unfold marks the result unfolded and keeps pop_ids', fnu))
+        for idx in f:
+            out.append(prove_eq('%s.unfold.entry%s' % (oid, '_'.join(map(str, idx))), pc + list(paths[0].pc), _nd_get(arr_u, idx), (d1[idx] + d1[mirror(idx)]) / 2, fnu))
+        du = {idx: to_real(exact(_nd_get(arr_u, idx))) for idx in f}
+        ku = {idx: b(_nd_get(kw_u.get('mask'), idx)) for idx in f}
+        for idx in f:
+            out.append(prove('%s.unfold.mask%s' % (oid, '_'.join(map(str, idx))), pc + list(paths[0].pc), ku[idx] == z3.Or(m[idx], m[mirror(idx)]), fnu))
+        r3 = fold_once(du, ku, oid + '.refold', out)
+        if r3 is not None:
+            arr3, mk3, pc3 = r3
+            out.append(prove(oid + '.refold.same-data', pc + pc3, z3.And([to_real(exact(_nd_get(arr3, idx))) == d1[idx] for idx in f]), fn))
+            out.append(prove(oid + '.refold.same-mask', pc + pc3, z3.And([b(_nd_get(mk3, idx)) == k1[idx] for idx in f]), fn))
+        return out
+    return go()
+
+
+def c11_optimal_scaling_lemma(n):
+    """Lemma used with the wiring obligations of optimal_sfs_scaling / ll_multinom: for model entries m_i > 0, data d_i >= 0 with sum d > 0,
+    theta* = sum d / sum m maximises the Poisson log-likelihood  L(theta) = sum_i -theta m_i + d_i log(theta m_i)  over theta > 0, and the
+    scaled model has the data's total.  (log is uninterpreted; the instances log(ab) = log a + log b and log u <= u - 1 used are listed.)"""
+    oid = 'C11/lemma.optimal-scaling-maximises-ll/n%d' % n
+    fn = 'dadi/Inference.py::optimal_sfs_scaling'
+    m, d = reals('m', n), reals('d', n)
+    th = z3.Real('theta')
+    log = uf('log')
+    M, D = sum(m, z3.RealVal(0)), sum(d, z3.RealVal(0))
+    tho = D / M
+    u = th / tho
+    hy = [x > 0 for x in m] + [x >= 0 for x in d] + [th > 0, D > 0]
+    ax = [log(th * m[i]) == log(th) + log(m[i]) for i in range(n)] + [log(tho * m[i]) == log(tho) + log(m[i]) for i in range(n)]
+    ax += [log(th) == log(tho) + log(u), log(u) <= u - 1]
+    L = lambda t: sum((-t * m[i] + d[i] * log(t * m[i]) for i in range(n)), z3.RealVal(0))
+    trusted = ['log(a b) = log a + log b and log u <= u - 1 (instances for theta, theta*, m_i)']
+    Mz, Dz = z3.Real('M'), z3.Real('D')
+    ts = Dz / Mz
+    agg = prove(oid + '.aggregated', [Mz > 0, Dz > 0, th > 0, log(th) == log(ts) + log(th / ts), log(th / ts) <= th / ts - 1],
+                -th * Mz + Dz * log(th) <= -ts * Mz + Dz * log(ts), fn, trusted=trusted, timeout_ms=60000)
+    return [prove(oid + '.maximum', hy + ax, L(th) <= L(tho), fn, trusted=trusted, timeout_ms=60000), agg,
+            prove_eq(oid + '.matches-total', hy, sum((tho * x for x in m), z3.RealVal(0)), D, fn)]
+
+
+# ---------------------------------------------------------------- C10: combine_two_pops by explicit index arithmetic
+def c10_combine_two_pops(ns, tocombine):
+    """Spectrum.combine_two_pops([a,b]) (1-based, any order) with lo = min, hi = max: entry j of the result is the sum of all entries idx with
+    idx[lo] + idx[hi] = j[lo] and the other indices equal; a result entry is masked iff a contributing entry is (or it is a corner);
+    labels 'lo+hi' in slot lo, slot hi removed; folded flag and extrap_x carried; total conserved."""
+    ns = tuple(ns)
+    oid = 'C10/Spectrum_mod.py:Spectrum.combine_two_pops/ns%s.combine%s' % ('_'.join(map(str, ns)), '_'.join(map(str, tocombine)))
+    fn = 'dadi/Spectrum_mod.py::Spectrum.combine_two_pops'
+
+    @guarded(oid, fn)
+    def go():
+        shape = tuple(n + 1 for n in ns)
+        P = len(ns)
+        nm = lambda p, idx: '%s%s' % (p, '_'.join(map(str, idx)))
+        f = {idx: z3.Real(nm('f', idx)) for idx in itertools.product(*[range(s) for s in shape])}
+        m = {idx: z3.Bool(nm('m', idx)) for idx in f}
+        data = _nd_build(shape, lambda idx: f[idx])
+        mask = _nd_build(shape, lambda idx: m[idx])
+        labels = ['P%d' % i for i in range(P)]
+        extrap, folded = Tm('extrap_x'), Tm('folded_flag')
+        made = []
+
+        def gh(ex_, obj, name, ctx):
+            if obj is data:
+                if name == 'sample_sizes':
+                    return VList(list(ns), 'ndarray')
+                if name == 'pop_ids':
+                    return VList(list(labels))
+                if name == 'mask':
+                    return mask
+                if name == 'extrap_x':
+                    return extrap
+                if name == 'folded':
+                    return folded
+            return NotImplemented
+
+        def ah(ex_, fref, a, kw, ctx):
+            if (isinstance(fref, ClassRef) and fref.node.name == 'Spectrum') or (isinstance(fref, Tm) and 'Spectrum' in fref.op):
+                arr = a[0]
+                shp = ex_.list_method(arr, 'shape')
+                # Spectrum(data, pop_ids=...): unmasked except the two corners (mask_corners defaults to True) -- constructor semantics, trusted
+                corner = lambda idx: all(i == 0 for i in idx) or all(i == s - 1 for i, s in zip(idx, shp))
+                ex_.setattr(arr, 'mask', _nd_build(shp, lambda idx: corner(idx)))
+                ex_.setattr(arr, 'pop_ids', kw.get('pop_ids'))
+                made.append((arr, kw))
+                return arr
+            return NotImplemented
+        ex = Executor(getattr_hook=gh)
+        ex.abstract_hook = ah
+        fr = ex.func('dadi/Spectrum_mod.py', 'Spectrum.combine_two_pops')
+        paths = ex.run(fr, [data, VList(list(tocombine))], {})
+        if len(paths) != 1 or paths[0].outcome != 'return' or len(made) != 1:
+            return [struct(oid, False, 'expected one returning path constructing one Spectrum: %r' % paths[:2], fn, undecided=True)]
+        res = paths[0].value
+        pc = list(paths[0].pc)
+        lo, hi = sorted(t - 1 for t in tocombine)
+        new_ns = list(ns)
+        new_ns[lo] = ns[lo] + ns[hi]
+        del new_ns[hi]
+        new_shape = tuple(n + 1 for n in new_ns)
+        out = []
+        got_shape = ex.list_method(res, 'shape') if isinstance(res, VList) else None
+        out.append(struct(oid + '.shape', got_shape == new_shape, 'sample sizes %s (got shape %s)' % (new_ns, got_shape), fn))
+        if got_shape != new_shape:
+            return out
+        want_labels = list(labels)
+        want_labels[lo] = '%s+%s' % (labels[lo], labels[hi])
+        del want_labels[hi]
+        gl = res.__dict__.get('attrs', {}).get('pop_ids')
+        out.append(struct(oid + '.labels', isinstance(gl, VList) and list(gl.items) == want_labels, 'labels %s (got %s)' % (want_labels, vrepr(gl)), fn))
+        at = res.__dict__.get('attrs', {})
+        out.append(struct(oid + '.flags', at.get('extrap_x') is extrap and at.get('folded') is folded, 'extrap_x and folded carried over', fn))
+
+        def target(idx):
+            j = list(idx)
+            j[lo] = idx[lo] + idx[hi]
+            del j[hi]
+            return tuple(j)
+        b = lambda x: z3.BoolVal(x) if isinstance(x, bool) else x
+        rmask = at.get('mask')
+        tot = z3.RealVal(0)
+        for j in itertools.product(*[range(s) for s in new_shape]):
+            src = [idx for idx in f if target(idx) == j]
+            want = sum((f[idx] for idx in src), z3.RealVal(0))
+            out.append(prove_eq('%s.entry%s' % (oid, '_'.join(map(str, j))), pc, _nd_get(res, j), want, fn))
+            tot = tot + to_real(exact(_nd_get(res, j)))
+            corner = all(i == 0 for i in j) or all(i == s - 1 for i, s in zip(j, new_shape))
+            out.append(prove('%s.mask%s' % (oid, '_'.join(map(str, j))), pc, b(_nd_get(rmask, j)) == z3.Or([z3.BoolVal(corner)] + [m[idx] for idx in src]), fn))
+        out.append(prove_eq(oid + '.total-conserved', pc, tot, sum(f.values(), z3.RealVal(0)), fn))
         return out
     return go()
